@@ -98,6 +98,9 @@ def gen_doc(rng, k):
     d = {"shape": shape, "tc": tc, "intercept": pick_float(rng, 0, 80) if rng.random() < 0.9 else pick_float(rng, -5, 0)}
     # dtype of the temperature column of the frame handed to predict (whole degrees as int64, float32, float64)
     d["tdtype"] = ["float64", "float32", "int64"][k % 3] if k < 70 else rng.choice(["float64"] * 4 + ["float32", "int64"])
+    # representation of the stored document: key order of every nested mapping, and the loader
+    reps = [[o, v] for o in ("original", "sorted", "reversed", "shuffled") for v in ("from_dict", "from_json")]
+    d["rep"] = reps[(k // 7) % 8] if k < 70 else (rng.choice(reps) if rng.random() < 0.5 else ["original", "from_dict"])
     for f in FIELDS:
         d[f] = None
     if shape in ("hdd_tidd_cdd_smooth", "hdd_tidd_cdd"):
@@ -154,11 +157,29 @@ _SET = {}
 def _settings():
     if "s" not in _SET:
         from opendsm.eemeter import DailyModel
-        _SET["s"] = DailyModel().settings.model_dump()
+        _SET["s"] = json.loads(json.dumps(DailyModel().settings.model_dump(mode="json")))
     return _SET["s"]
 
 
+def reorder(obj, mode, rng):
+    """the same JSON value with the keys of EVERY nested mapping in another order (a JSON object is an unordered mapping)"""
+    if isinstance(obj, dict):
+        keys = list(obj.keys())
+        if mode == "sorted":
+            keys = sorted(keys)
+        elif mode == "reversed":
+            keys = keys[::-1]
+        elif mode == "shuffled":
+            rng.shuffle(keys)
+        return {k: reorder(obj[k], mode, rng) for k in keys}
+    if isinstance(obj, list):
+        return [reorder(v, mode, rng) for v in obj]
+    return obj
+
+
 def build_model(doc):
+    """DailyModel from the stored document; doc["rep"] = (key order of all nested mappings, from_dict | from_json)"""
+    import random
     from opendsm.eemeter import DailyModel
     c = {"model_type": doc["shape"], "intercept": doc["intercept"]}
     for f in FIELDS:
@@ -168,6 +189,11 @@ def build_model(doc):
          "info": {"error": {"wRMSE": 1.0, "RMSE": 1.0, "MAE": 1.0, "CVRMSE": 0.1, "PNRMSE": 0.1},
                   "baseline_timezone": "UTC", "disqualification": [], "warnings": []},
          "settings": _settings()}
+    order, via = doc.get("rep", ["original", "from_dict"])
+    if order != "original":
+        d = reorder(d, order, random.Random(vlib.sha([doc["shape"], doc["intercept"], doc["tc"]])))
+    if via == "from_json":
+        return DailyModel.from_json(json.dumps(d))
     return DailyModel.from_dict(d)
 
 
@@ -435,6 +461,7 @@ def stream_predict(run, docs, ntemps, ln_min, stream="predict", compare=True):
         run.cov["temperature_evaluations"] = run.cov.get("temperature_evaluations", 0) + len(ts)
         run.dist("shape", doc["shape"])
         run.dist("temperature_dtype", doc.get("tdtype", "float64"))
+        run.dist("document_representation", "/".join(doc.get("rep", ["original", "from_dict"])))
         run.dist("regime", ("corner " if corner else "") + ("smoothed" if smooth else "unsmoothed") +
                  (" equal-bp" if v["hbp"] == v["cbp"] else ""))
         if doc["shape"] == "hdd_tidd_cdd_smooth":
@@ -590,7 +617,9 @@ def main():
         "{0, <0.01, 0.01, 0.25..0.75, 1, uniform} incl. sums > 1, one-sided k in {0,0.25,..,30}); each is evaluated through "
         "DailyModel.from_dict(...)._predict on a sweep of -60..140 F that contains the stored and shifted balance points, "
         "their float neighbours, T_min/T_max/T_*_seg and a uniform grid; the temperature COLUMN of the frame is float64, float32 "
-        "(sweep rounded to float32) or int64 (whole degrees), the model is evaluated at the exact value of each temperature. distinct = hash(document, sweep length); "
+        "(sweep rounded to float32) or int64 (whole degrees), the model is evaluated at the exact value of each temperature; the "
+        "document is handed over with the keys of every nested mapping (top level, submodels, coefficients, temperature_constraints, "
+        "settings, info) in original / sorted / reversed / shuffled order through from_dict or from_json. distinct = hash(document, sweep length); "
         "non-trivial = a shape with a non-zero effective slope. kernel: arbitrary 7-vectors (crossed/equal balance points, "
         "negative k) through the numba kernel directly; smooth: get_smooth_coeffs; exp: own exp vs numpy")
     run.assumptions += [
